@@ -234,6 +234,39 @@ theorem proposes_own_block (c : Cfg) (s : NodeState) (round me : Nat)
   unfold decideProposal sign
   simp [hv, hs, emit, hh]
 
+/-- `enterPrecommit` leaves the node in round `s.round` or `round`, halted or not as … (round part) -/
+theorem enterPrecommit_round (c : Cfg) (s : NodeState) (round : Nat) :
+    (enterPrecommit c s round).halted = true ∨ (enterPrecommit c s round).round = s.round ∨
+      (enterPrecommit c s round).round = round := by
+  unfold enterPrecommit
+  dsimp only
+  repeat' split
+  all_goals first
+    | (right; left; rfl)
+    | (right; right; rfl)
+    | (left; unfold panicWith; split <;> simp_all)
+
+/-- **a bad round ends at the precommit-wait timeout**: a live node in round `r` that is given its
+`PrecommitWait` timeout of round `r` moves on to round `r + 1` (`handleTimeout`: `enterPrecommit`,
+then `enterNewRound(r+1)`) — whatever step it is in. -/
+theorem precommitWait_timeout_advances (c : Cfg) (s : NodeState) (r : Nat) (hh : s.halted = false)
+    (hr : s.round = r) (hst : s.step.rank ≤ Step.precommitWait.rank) :
+    (handleTimeout c s r .precommitWait).halted = true ∨ (handleTimeout c s r .precommitWait).round = r + 1 := by
+  unfold handleTimeout
+  have hg : ¬ (r < s.round ∨ (r = s.round ∧ Step.precommitWait.rank < s.step.rank)) := by omega
+  simp only [hg, if_false]
+  rcases enterPrecommit_round c s r with h | h | h
+  · left
+    unfold enterNewRound; simp [h]
+  · cases hh' : (enterPrecommit c s r).halted with
+    | true => left; unfold enterNewRound; simp [hh']
+    | false =>
+      exact enterNewRound_round c _ (r + 1) hh' (by rw [h, hr]; omega)
+  · cases hh' : (enterPrecommit c s r).halted with
+    | true => left; unfold enterNewRound; simp [hh']
+    | false =>
+      exact enterNewRound_round c _ (r + 1) hh' (by rw [h]; omega)
+
 /-! ### the commit step -/
 
 theorem finalizeCommit_decides (c : Cfg) (s : NodeState) (b : Nat)
